@@ -149,6 +149,29 @@ for i in range(ncomp):
         nd = pool.density()
         one(seq, None, nd, wkind, wval, round(rng.random(), 2), round(rng.random(), 2), "natural_density")
         stats["natural_density"] += 1
+    if rng.random() < 0.5:
+        # the same compound handed over as a Formula object that carries a density of its own: a density keyword
+        # still decides, and without a keyword the object's own density does
+        own = pool.density()
+        fobj = formula(seq, density=own)
+        vf, f = round(rng.random(), 2), round(rng.random(), 2)
+        kw = kwargs(wkind, wval)
+        stats["formula_objects"] = stats.get("formula_objects", 0) + 1
+        for dkw, ref in ((dict(density=rho), dict(density=rho)), (dict(natural_density=rho), dict(natural_density=rho)), ({}, dict(density=own))):
+            a = attempt(lambda: nsf.D2O_sld(fobj, volume_fraction=vf, D2O_fraction=f, **dkw, **kw))
+            b = attempt(lambda: nsf.D2O_sld(seq, volume_fraction=vf, D2O_fraction=f, **ref, **kw))
+            ma = attempt(lambda: nsf.D2O_match(fobj, **dkw, **kw))
+            mb = attempt(lambda: nsf.D2O_match(seq, **ref, **kw))
+            t2 = "D2O_sld(formula(%r, density=%r), volume_fraction=%r, D2O_fraction=%r%s%s)" % (
+                seq, own, vf, f, "".join(", %s=%r" % kv for kv in dkw.items()), "".join(", %s=%r" % kv for kv in kw.items()))
+            bad = any(isinstance(x, BaseException) for x in (a, b, ma, mb))
+            if not bad:
+                sc2 = re_scale(count_struct(seq), rho if dkw else own) + abs(b[0])
+                bad = not close(a[0], b[0], sc2) or not close(a[1], b[1], max(abs(a[1]), abs(b[1]), 1e-300)) \
+                    or not close(ma[0], mb[0], 1 + abs(mb[0]), 1e-10)
+            if bad:
+                fail("C16:formula-object-density", "%s gives %r (match %r); the same compound at %s gives %r (match %r)"
+                     % (t2, a, ma, "the keyword's density" if dkw else "the object's own density", b, mb), call=t2)
 
 # ---------------------------------------------------------------- fasta molecules and sequences
 def molecule_case(name, M, vf, f):
